@@ -87,7 +87,7 @@ def run_sequence(part, m, seq, campaign):
     undo = fake_kernel.install()
     try:
         s = isotp.socket()
-        fk = s.real_socket() if hasattr(s, 'real_socket') else s._socket
+        fk = fake_kernel.CREATED[-1]       # the kernel socket the wrapper has just created
         m.p.stdin.write('S reset\nK reset\n'); m.p.stdin.flush(); m.p.stdout.readline(); m.p.stdout.readline()
         ref = dict(INIT)
         for kind, kw in seq:
